@@ -149,11 +149,15 @@ pub struct Gen<'a> {
     pub sw: Swarm,
     /// when set every named leaf gets an env var with this probability (x/8)
     pub env_bias: usize,
+    /// inside an adjacent group: groups nest one level only - bpaf's search for a group costs
+    /// about n^k evaluations for k nested levels on n items, which terminates but, with long
+    /// lines, not within any sensible watchdog
+    pub in_group: bool,
 }
 
 impl<'a> Gen<'a> {
     pub fn new(r: &'a mut Rng, sw: Swarm) -> Self {
-        Gen { r, sw, env_bias: 2 }
+        Gen { r, sw, env_bias: 2, in_group: false }
     }
 
     fn short(&mut self) -> char {
@@ -410,9 +414,12 @@ impl<'a> Gen<'a> {
         let extra = self.r.range(1, 3);
         let mut pos_started = false;
         for _ in 0..extra {
-            if !pos_started && depth < self.sw.max_depth && self.r.chance(1, 5) {
+            if !pos_started && !self.in_group && depth < self.sw.max_depth && self.r.chance(1, 5) {
                 // a group of its own inside the group (plain, optional or repeated)
-                fields.push(self.adjacent_group(depth + 1));
+                self.in_group = true;
+                let nested = self.adjacent_group(depth + 1);
+                self.in_group = false;
+                fields.push(nested);
             } else if !pos_started && self.r.chance(1, 2) {
                 let leaf = self.named_leaf();
                 fields.push(self.wrap_light(leaf));
